@@ -8,6 +8,7 @@ import (
 	"flag"
 	"fmt"
 	"os"
+	"path/filepath"
 	"strconv"
 	"time"
 
@@ -39,6 +40,10 @@ func main() {
 	}
 	r := &drv.Run{ID: id, Tier: *tier, Seed: seed, Replay: *replay, Start: time.Now(), Extra: map[string]interface{}{}}
 	if *replay != "" {
+		if abs, err := filepath.Abs(*replay); err == nil {
+			*replay = abs
+			r.Replay = abs
+		}
 		ri, err := drv.LoadReplay(*replay)
 		if err != nil {
 			drv.Fatal("replay: %v", err)
